@@ -354,6 +354,12 @@ func c20Scenarios(thorough bool) []*Scenario {
 			Requests: []SetReqOrCall{appendChange3("append 1: leafA=a sub/leafC=c", "T1", "/cont/leafA", "a", "/cont/sub/leafC", "c"),
 				appendChange3("append 2: delete /cont/sub", "T1", "/cont/sub", "<delete>")},
 			Faults: []FaultSpec{faultDeviceRestart("T1")}, FaultBudget: 1},
+		{Name: "V7p leaf, delete of its container, leaf again - applied before the exploration starts; then the device restarts empty (re-synchronisation, every map iteration order)", Cfg: cfg, Init: connected,
+			Prefix: []func(w *World) *Call{
+				appendChange3("append 1: sub/leafC=c", "T1", "/cont/sub/leafC", "c").Call,
+				appendChange3("append 2: delete /cont/sub", "T1", "/cont/sub", "<delete>").Call,
+				appendChange3("append 3: sub/leafC=d", "T1", "/cont/sub/leafC", "d").Call},
+			Faults: []FaultSpec{faultDeviceRestart("T1")}, FaultBudget: 1, MapOrderDeviations: true},
 		{Name: "V8 change appended while the target is not connected, then it connects", Cfg: cfg, Requests: []SetReqOrCall{a1, a2o},
 			Faults: []FaultSpec{faultConnUp("T1")}, FaultBudget: 1},
 		{Name: "V8i change appended while the target connects (mastership, synchronisation and transaction controllers interleaved at their store writes)", Cfg: cfg, Requests: []SetReqOrCall{a1},
@@ -578,6 +584,7 @@ func checkC20(rc *RunCtx) *Report {
 			out.Numbers["states"] += int64(x.States)
 			out.Numbers["transitions"] += int64(x.Transitions)
 			out.Numbers["split_steps"] += int64(x.Splits)
+			out.Numbers["map_order_deviations"] += int64(x.MapDeviations)
 			out.Numbers["transitions_judged"] += int64(judged)
 			out.Numbers["interleavings"] += int64(x.Interleavings)
 			out.Numbers["write_conflicts_provoked"] += int64(x.conflicts)
